@@ -1,10 +1,123 @@
 /-
-  Drive/Errors.lean — driver suite `errors` (stub; to be implemented).
+  Drive/Errors.lean — driver suite `errors` (C18).
+
+  Input  {cls, kw, ff, mode, msg?, re}:
+    cls   flat class declaration (wire), fields in signature order
+    kw    the keyword arguments as the real constructor received them (for `deser` cases: the
+          lifted arguments, used only for `invalid`)
+    ff    Structure.failing_fast()
+    mode  "construct" | "deser" | "nested"
+    msg   str(exception) of the real run (absent when nothing was raised)
+  Output:
+    invalid  supplied fields that `validate` rejects (signature order) — the property's right-hand side
+    raised   what the construction model raises: kind, exception class, per site: top, path, shape,
+             anon, head (the text the message must begin with); for the real message(s): whether each
+             begins with its head, and `recoverable` of the rest (the exact side condition)
+    readable the helper model on `msg`: {"raises": true} | {"single": info} | {"many": [info]}
+  The JSON codec oracle is instantiated with Lean.Data.Json here (trusted glue).
 -/
 import TypedpyModel.Drive.Wire
+import TypedpyModel.Sem.Errors
 namespace Typedpy.Drive.Errors
 open Lean (Json)
+open Typedpy Typedpy.Wire Typedpy.Err
 
-def run (_j : Json) : Except String Json := .error "suite errors not implemented"
+def ofText (t : Text) : String := String.ofList t
+
+/-- `json.loads` + iteration as strings, through Lean's JSON parser -/
+def loadsImpl (t : Text) : Loaded :=
+  match Json.parse (ofText t) with
+  | .error _ => .invalid
+  | .ok (.arr xs) =>
+    if xs.all (fun x => match x with | .str _ => true | _ => false) then
+      .strs (xs.toList.map fun x => match x with | .str s => s.toList | _ => [])
+    else .raises
+  | .ok (.str s) => .strs (s.toList.map fun c => [c])
+  | .ok (.obj kvs) => .strs (kvs.toList.map fun kv => kv.1.toList)
+  | .ok _ => .raises
+
+def codec : Codec :=
+  { dumps := fun ts => (Json.arr (ts.map fun t => Json.str (ofText t)).toArray).compress.toList
+    loads := loadsImpl }
+
+def optText : Option Text → Json
+  | none => .null
+  | some t => .str (ofText t)
+
+partial def infoToJson : Info → Json
+  | .leaf f v p o => Json.mkObj [("field", optText f), ("value", optText v), ("problem", .str (ofText p)),
+                                 ("opaque", .bool o)]
+  | .node f v subs => Json.mkObj [("field", optText f), ("value", optText v),
+                                  ("subs", Json.arr (subs.map infoToJson).toArray)]
+
+def readableToJson (ff : Bool) (msg : String) : Json :=
+  match readable ff codec msg.toList with
+  | .error e => Json.mkObj [("raises", .str e)]
+  | .ok (.single i) => Json.mkObj [("single", infoToJson i)]
+  | .ok (.many is) => Json.mkObj [("many", Json.arr (is.map infoToJson).toArray)]
+
+def shapeName : Shape → String
+  | .gotFirst => "gotFirst" | .gotLast => "gotLast" | .plain => "plain"
+
+/-- the text a site's message must begin with (class prefix included) -/
+def siteHead (cls : Text) (s : Site) : Text :=
+  if s.loc.anon then withClass (some cls) []
+  else withClass (some cls) (s.path ++ (':' :: ' ' :: (if s.loc.shape == .gotFirst then sGot else [])))
+
+def isPrefix (p t : Text) : Bool := (dropPre p t).isSome
+
+/-- per (site, real message text): does the text begin with the head; is the rest recoverable -/
+def siteVsText (cls : Text) (s : Site) (t : Text) : Json :=
+  let full := withClass (some cls) (s.path ++ [':', ' '])
+  let rest := match dropPre full t with | some r => r | none => []
+  Json.mkObj [("headOk", .bool (isPrefix (siteHead cls s) t)),
+              ("shapeOk", .bool (s.loc.anon || match s.loc.shape with
+                | .gotFirst => true
+                | .gotLast => (splitLast sSemiGot rest).isSome
+                | .plain => true)),
+              ("recoverable", .bool (!s.loc.anon && recoverable rest))]
+
+def siteToJson (cls : Text) (s : Site) : Json :=
+  Json.mkObj [("top", .str s.top), ("path", .str (ofText s.path)), ("shape", .str (shapeName s.loc.shape)),
+              ("anon", .bool s.loc.anon), ("cls", .str (errName s.cls)),
+              ("head", .str (ofText (siteHead cls s)))]
+
+def run (j : Json) : Except String Json := do
+  let O ← oraclesOfJson j
+  let decl ← declOfJson (← j.getObjVal? "cls")
+  let kw ← kwOfJson (← j.getObjVal? "kw")
+  let ff ← optBool j "ff" true
+  let mode ← (← j.getObjVal? "mode").getStr?
+  let msg ← optStr j "msg"
+  match decl with
+  | .struct c fields _ =>
+    let cls := c.name.toList
+    let invalid := invalidFields O c kw fields
+    let ss := sites O c kw fields
+    let flat := fields.all fun nf => isFlatDecl nf.2
+    let bind := !bindOk c (fields.map (·.1)) kw
+    let kind := if bind then "bind" else match ss with
+      | [] => "nothing"
+      | _ :: _ => if ff then "single" else "collected"
+    -- the real message(s), aligned with the model's sites
+    let texts : List Text := match msg with
+      | none => []
+      | some m => if ff then [m.toList] else match loadsImpl m.toList with
+        | .strs xs => xs
+        | _ => [m.toList]
+    let expected := if ff then ss.take 1 else ss
+    let cmp := (expected.zip texts).map fun st => siteVsText cls st.1 st.2
+    let base := [("invalid", Json.arr (invalid.map Json.str).toArray),
+                 ("flat", Json.bool flat),
+                 ("kind", Json.str kind),
+                 ("sites", Json.arr (expected.map (siteToJson cls)).toArray),
+                 ("nTexts", Json.num (Lean.JsonNumber.fromNat texts.length)),
+                 ("cmp", Json.arr cmp.toArray),
+                 ("mode", Json.str mode)]
+    let rd := match msg with
+      | none => []
+      | some m => [("readable", readableToJson ff m)]
+    pure (Json.mkObj (base ++ rd))
+  | _ => throw "errors: cls is not a class declaration"
 
 end Typedpy.Drive.Errors
